@@ -975,7 +975,10 @@ Definition process_cmd (fx : bool) (s : st) (pe : peer) (d : dgram) : res (st * 
               | None => o <- send_result fx p E_DESTUNKNOWN h ;; Ok (s, o)
               | Some k =>
                   match lfo with
-                  | None => o <- send_result fx p E_DESTUNKNOWN h ;; Ok (s, o)
+                  | None =>
+                      (* no error response to an incoming result *)
+                      if is_cls k CResult then Ok (s, [])
+                      else o <- send_result fx p E_DESTUNKNOWN h ;; Ok (s, o)
                   | Some lf =>
                       _ <- print_overview fx h k c ;;
                       gate <- (if is_cls k CWrite then
